@@ -82,6 +82,10 @@ func VerifC05_ApplyTransaction() {
 	c05.msg = ethtypes.NewMessage(c07From, to, nonce, big.NewInt(0), gasLimit, big.NewInt(1), big.NewInt(1), big.NewInt(1), nil, nil, false)
 	tx := ethtypes.NewTx(&ethtypes.LegacyTx{Nonce: nonce, GasPrice: big.NewInt(1), Gas: gasLimit, To: to, Value: big.NewInt(0)})
 	ctx := env.Ctx.WithBlockHeight(10)
+	// the Ethereum messages of one Cosmos transaction share a running total of the gas they used (transient store): the
+	// transaction's gas meter, the block gas meter and with it the fee market's gas figure are set from it
+	prior := zz.AnyUint64In("gasUsedByEarlierMessagesOfTheTransaction", 0, 1<<40)
+	k.SetTransientGasUsed(ctx, prior)
 
 	res, err := k.ApplyTransaction(ctx, tx)
 	if err != nil {
@@ -102,6 +106,7 @@ func VerifC05_ApplyTransaction() {
 		zz.Assert(cosmosEffect && evmEffect, "a successful transaction keeps its effects")
 		zz.Reach("succeeded")
 	}
+	zz.Assert(k.GetTransientGasUsed(ctx) == prior+res.GasUsed, "the running total of gas used by the transaction's Ethereum messages grows by this message's gas (whether or not hooks are set, whether or not it failed)")
 	zz.Assert(ak.accs[string(acc.GetAddress())].GetSequence() >= nonce+1, "the nonce stays consumed")
 	zz.Reach("end")
 }
